@@ -160,6 +160,12 @@ pub open spec fn upvalue_state_shaded(d: ObjUpvalueState) -> bool { match d { Ob
 //@trace file=yarel/src/object.rs type=ObjClosure
 //@  exempt module the module object is rooted in Vm.modules (until reset)
 //@end
+// The exemption above rests on a frame condition: outside Vm::reset nothing ever takes an entry out of Vm.modules (a
+// module object is rooted there for as long as code of it can run). Decided from the code as it stands on this run:
+//@callsites file=yarel/src/vm.rs impl=Vm name=module_registry_shrink pattern="modules\s*\.\s*(remove|retain|clear|drain|remove_entry)\s*\(" allowed=reset
+//@lemma name=modules_stay_registered_for_as_long_as_their_code_can_run props=C01
+pub proof fn modules_stay_registered_for_as_long_as_their_code_can_run() ensures UNEXPECTED_CALLERS_OF_MODULE_REGISTRY_SHRINK == 0 {}
+
 
 //@trace file=yarel/src/object.rs type=ObjClass
 //@end
